@@ -374,6 +374,10 @@ def run(ck):
     # transition relation of lzma_code, evaluated exhaustively)
     from . import C11
     C11.check_fsm(ck, prog)
+    # "a refused change leaves the encoder usable": the update functions replace coder->filters only after the new
+    # chain was copied successfully (strong guarantee, rule shared with C10)
+    from . import C10
+    C10.check_strong(ck, prog)
     # the threaded encoder reports a full flush complete only when the output queue is empty (rule shared with C08)
     from . import C08
     ck.rule("C12-MTFLUSH", "threaded encoder: LZMA_FULL_FLUSH / LZMA_FINISH complete only with an empty output queue")
